@@ -952,6 +952,14 @@ func TestReplay(t *testing.T) {
 	if p == "" {
 		t.Skip("no replay requested")
 	}
+	if h.ReplayPart(p) == "burst" {
+		var bc BurstCase
+		if err := h.LoadReplay(p, &bc); err != nil {
+			t.Fatal(err)
+		}
+		h.Begin("C05", "replay").Report(t, bc, runBurstCase(bc))
+		return
+	}
 	var c struct {
 		Case
 		Inflight []Case `json:"inflight"`
